@@ -107,6 +107,8 @@ var c13Cases = []c13Case{
 	{"input T1 { f: Int @d(n: \"s\") }", 0, ""},
 	{"directive @c1(a: Int @c1) on ARGUMENT_DEFINITION", 0, "c1"},
 	{"directive @c1(a: Int @c2) on ARGUMENT_DEFINITION directive @c2(b: Int @c1) on ARGUMENT_DEFINITION", 0, ""},
+	{"directive @c2(b: Int @c2) on ARGUMENT_DEFINITION directive @c1(a: Int @c2) on ARGUMENT_DEFINITION", 0, "c2"},
+	{"directive @c1(a: Int @c2) on ARGUMENT_DEFINITION directive @c2(b: Int @c3) on ARGUMENT_DEFINITION directive @c3(c: Int @c2) on ARGUMENT_DEFINITION", 0, ""},
 }
 
 // c13Recheck walks the loaded schema through the public API: every name is a
